@@ -123,9 +123,14 @@ static void apply(const struct op *o, struct mstate *m) {
     switch (o->kind) {
     case O_CREATE: {
         int variant = o->c;
+        /* variant 11: a clock that reads differently every time it is asked (first the reading of variant 0, then two months later, then the error
+         * value, then a pre-epoch value).  How often create consults the clock is not prescribed: the birthday must be that of a value returned. */
+        int seqclock = (variant == 11 && m->table == 0 && !(m->nullpat & 1)); if (variant == 11) variant = 0;
         tape_for(m->table, variant, E.tape[m->table]); E.clock[m->table] = clock_for(m->table, variant);
+        if (seqclock) { E.clock_seq[0] = E.clock[0]; E.clock_seq[1] = E.clock[0] + 2 * R_STEP; E.clock_seq[2] = UINT64_MAX; E.clock_seq[3] = R_EPOCH - 1; E.clock_seq_n = 4; E.clock_seq_i = 0; }
         polyseed_data *d = (polyseed_data *)(uintptr_t)0xDEAD;
         st = polyseed_create((unsigned)o->b, &d);
+        E.clock_seq_n = 0;
         unsigned f = (unsigned)o->b & 7;
         if (!ref_supported(f, m->mask)) want = ST_UNSUPPORTED;
         else { alloc_expected = 1; want = m->armed ? ST_MEMORY : ST_OK; }
@@ -136,6 +141,9 @@ static void apply(const struct op *o, struct mstate *m) {
             memcpy(r->secret, E.tape[m->table], 19); r->secret[18] &= 0x3F;
             uint64_t t = (m->nullpat & 1) ? 1700000000ULL : E.clock[m->table];
             r->birthday = ref_birthday_index(t); r->features = f;
+            if (seqclock) { unsigned bi = ref_birthday_index(polyseed_get_birthday(d)); int okb = 0; uint64_t rd[4] = { E.clock[0], E.clock[0] + 2 * R_STEP, UINT64_MAX, R_EPOCH - 1 };
+                for (unsigned long q = 0; q < E.n_time && q < 4; q++) if (bi == ref_birthday_index(rd[q])) okb = 1; if (E.n_time > 4) okb = 1;
+                if (okb) r->birthday = bi; else { snprintf(k, sizeof k, "c13:clock-readings:%s", o->name); BADV(k, "%s: the clock was read %lu times; the birthday (month %u) is that of none of the values it returned", o->name, E.n_time, bi); } }
             /* C18: sources */
             int tsrc = (m->nullpat & 1) ? (E.n_libc_time >= 1 && E.n_time == 0) : (E.n_time >= 1 && E.n_libc_time == 0);
             int asrc = (m->nullpat & 2) ? (E.n_libc_malloc == 1 && E.n_alloc == 0) : (E.n_alloc == 1 && E.n_libc_malloc == 0);
@@ -452,7 +460,7 @@ static void build_profile(void) {
         static const int CF[] = { 0, 1, 6 };
         for (int s = 0; s < NSLOT; s++) {
             for (int j = 0; j < 3; j++) add_op(O_CREATE, s, CF[j], s, "create(slot%d,features=%d)", s, CF[j]);
-            if (s == 0) { add_op(O_CREATE, s, (int)0xFFFFFF09u, s, "create(slot0,features=0xffffff09)"); add_op(O_CREATE, s, 0, 9, "create(slot0,features=0,clock first month after 2107)"); add_op(O_CREATE, s, 0, 10, "create(slot0,features=0,clock 2^32 s after the epoch)"); }
+            if (s == 0) { add_op(O_CREATE, s, (int)0xFFFFFF09u, s, "create(slot0,features=0xffffff09)"); add_op(O_CREATE, s, 0, 9, "create(slot0,features=0,clock first month after 2107)"); add_op(O_CREATE, s, 0, 11, "create(slot0,features=0,clock reading differently each time)"); add_op(O_CREATE, s, 0, 10, "create(slot0,features=0,clock 2^32 s after the epoch)"); }
             add_op(O_FREE, s, 0, 0, "free(slot%d)", s);
             for (int p = 0; p < NPW; p++) add_op(O_CRYPT, s, p, 0, "crypt(slot%d,pw%d)", s, p);
             for (int d = 0; d < NSLOT; d++) if (d != s) {
